@@ -70,15 +70,29 @@ func (w *wworld) round(clients []*wclient) bool {
 	base := runtime.NumGoroutine()
 	var wg sync.WaitGroup
 	start := make(chan struct{})
+	// varied timing: in half of the rounds the calls are staggered by 0..4 ms (drawn from the run's PRNG), so that a
+	// request can arrive while an earlier one holds the lock and a still earlier one has just released it
+	stagger := w.c.Rng.Intn(2) == 0
+	steps := []time.Duration{0, 0, 100 * time.Microsecond, 300 * time.Microsecond, 700 * time.Microsecond, 1500 * time.Microsecond, 2500 * time.Microsecond, 4 * time.Millisecond}
+	if stagger {
+		w.c.Count("rounds-staggered")
+	}
 	for _, cl := range calls {
 		wg.Add(1)
-		go func(cl *call) {
+		var delay time.Duration
+		if stagger {
+			delay = steps[w.c.Rng.Intn(len(steps))]
+		}
+		go func(cl *call, delay time.Duration) {
 			defer wg.Done()
 			ctx, cancel := gocontext.WithCancel(gocontext.Background())
 			<-start
+			if delay > 0 {
+				time.Sleep(delay)
+			}
 			cl.resp, cl.err = w.e.svc.ProcessPushPull(ctx, cl.msg)
 			cancel() // as gRPC does when the call returns
-		}(cl)
+		}(cl, delay)
 	}
 	close(start)
 	done := make(chan struct{})
@@ -166,7 +180,7 @@ func sliceConcSrv(c *Ctx, kind string) {
 	if n == 0 {
 		n = 30
 	}
-	c.Res.Rule = "3..8 real clients (manual sync) in 1..2 collections on 1..3 keys of one " + kind + "; after a sequential start (create/subscribe), rounds in which local calls are made everywhere and then ALL clients call ProcessPushPull at the same moment, each message carrying the packs of all the client's datatypes and its own context cancelled on return; the one-at-a-time order is read off the responses and the round is replayed on the sequential server model (responses, stored collections), then the answers are applied by the clients; C06/C11 oracles after every round, equality of clients and server copy at quiescence, 20s watchdog; non-trivial = at least two requests of a round carried operations"
+	c.Res.Rule = "3..8 real clients (manual sync) in 1..2 collections on 1..3 keys of one " + kind + "; after a sequential start (create/subscribe), rounds in which local calls are made everywhere and then ALL clients call ProcessPushPull at the same moment or, in half of the rounds, staggered by 0..4 ms, each message carrying the packs of all the client's datatypes and its own context cancelled on return; the one-at-a-time order is read off the responses and the round is replayed on the sequential server model (responses, stored collections), then the answers are applied by the clients; C06/C11 oracles after every round, equality of clients and server copy at quiescence, 20s watchdog; non-trivial = at least two requests of a round carried operations"
 	var cases []string
 	ty := map[string]string{"counter": "ccall", "map": "mcall", "list": "lcall"}[kind]
 	for h := 0; h < n; h++ {
